@@ -169,6 +169,10 @@ def _benign_raise_site(ctx, f, node, req, facts_at):
     roots = [a] if not isinstance(a, ast.With) else [i.context_expr for i in a.items]
     for r in roots:
         for n in ast.walk(r):
+            # request["id"] / ["method"] exist for every well-formed request; any other member
+            # ("params" is optional in JSON-RPC) may be missing: the subscript raises KeyError
+            if isinstance(n, ast.Subscript) and isinstance(n.ctx, ast.Load) and isinstance(n.value, ast.Name) and n.value.id == req and isinstance(n.slice, ast.Constant) and n.slice.value not in ("id", "method", "jsonrpc"):
+                return False
             if isinstance(n, ast.Call):
                 d = ctx.m.dotted(f.rel, n.func) if isinstance(n.func, (ast.Name, ast.Attribute)) else None
                 if d and (d.split(".")[-1] in ("debug", "info", "warning", "error", "exception", "critical", "log") and ("log" in d.lower())):
@@ -237,7 +241,13 @@ def r2(ctx, R):
             has_call = any(e[0] == "CALL" for e in evs)
             has_resp = any(e[0] == "RESP" for e in evs)
             if has_resp and not has_call:
-                return []  # writers raise only through json.dumps: rule R6
+                # writers raise only through json.dumps (rule R6) - but their argument expressions
+                # are evaluated first: a member of the message that may be missing raises here
+                risky = [x for x in ast.walk(n.ast) if isinstance(x, ast.Subscript) and isinstance(x.ctx, ast.Load) and isinstance(x.value, ast.Name) and x.value.id == req and isinstance(x.slice, ast.Constant) and x.slice.value not in ("id", "method", "jsonrpc")]
+                if not risky:
+                    return []
+                escapes[n.id] = "unlisted"
+                return [(notif, nresp, called, lab[1])]
             if not has_call:
                 if _benign_raise_site(ctx, f, n, req, None):
                     escapes.setdefault(n.id, "benign")
